@@ -701,4 +701,206 @@ theorem emitsFrom_eq (eff : MetaCfg) (args : DumpArgs) (fks : List (FieldInfo ×
     rw [emitsFrom_eq eff args fks dtv ocv vals r (i + 1) hdrop']
     simp [sk2At, hget]
 
+/-! ### the closure `dump_func_for_dataclass` builds, and the call environment: `World` is inhabited for every class -/
+
+/-- what the generator's `_locals[...] = …` assignments store for the fields from index `i` on -/
+def closureList : Nat → List (FieldInfo × S) → List (S × CV)
+  | _, [] => []
+  | i, (fi, _) :: r =>
+    (match fi.dflt with | some d => [(defaultName i, CV.dflt d)] | none => []) ++
+    (match fi.skipIf with | some c => [(skipIfName i, CV.lit c.val)] | none => []) ++ closureList (i + 1) r
+
+def closureMeta (eff : MetaCfg) : List (S × CV) :=
+  (match eff.skipIf with | some c => [(skipValue, CV.lit c.val)] | none => []) ++
+  (match eff.skipDefaultsIf with | some c => [(skipDefaultsValue, CV.lit c.val)] | none => [])
+
+/-- the environment of the call `asdict(o, exclude=…, skip_defaults=…)` on an instance whose attribute `n` holds `vals n` -/
+def envOf (eff : MetaCfg) (args : DumpArgs) (fks : List (FieldInfo × S)) (vals : S → PyVal) : Env :=
+  { field := fun n => some (vals n), exclude := args.exclude, skipDefaults := skipDefaultsOn eff args,
+    closure := fun n => (closureMeta eff ++ closureList 0 fks).lookup n }
+
+theorem defaultName_injective (i j : Nat) (h : defaultName i = defaultName j) : i = j := by
+  unfold defaultName at h
+  exact dec_injective i j (List.append_cancel_left h)
+
+theorem skipIfName_injective (i j : Nat) (h : skipIfName i = skipIfName j) : i = j := by
+  unfold skipIfName at h
+  exact dec_injective i j (List.append_cancel_left h)
+
+theorem defaultName_ne_skipIfName (i j : Nat) : defaultName i ≠ skipIfName j := by
+  have h1 : defaultName i = '_' :: 'd' :: 'e' :: 'f' :: 'a' :: 'u' :: 'l' :: 't' :: '_' :: dec i := by unfold defaultName; rfl
+  have h2 : skipIfName j = '_' :: 's' :: 'k' :: 'i' :: 'p' :: '_' :: 'i' :: 'f' :: '_' :: dec j := by unfold skipIfName; rfl
+  rw [h1, h2]; simp
+
+theorem lookup_single_ne {α : Type} (n k : S) (v : α) (h : n ≠ k) : ([(k, v)] : List (S × α)).lookup n = none := by
+  have : (n == k) = false := by simpa using h
+  simp [List.lookup, this]
+
+theorem lookup_single_eq {α : Type} (k : S) (v : α) : ([(k, v)] : List (S × α)).lookup k = some v := by
+  simp [List.lookup]
+
+theorem lookup_cons_ne {α : Type} (n k : S) (v : α) (r : List (S × α)) (h : n ≠ k) : ((k, v) :: r).lookup n = r.lookup n := by
+  have : (n == k) = false := by simpa using h
+  simp [List.lookup, this]
+
+theorem lookup_cons_eq {α : Type} (k : S) (v : α) (r : List (S × α)) : ((k, v) :: r).lookup k = some v := by
+  simp [List.lookup]
+
+theorem lookup_append_of_none {α : Type} (k : S) (xs ys : List (S × α)) (h : xs.lookup k = none) :
+    (xs ++ ys).lookup k = ys.lookup k := by
+  induction xs with
+  | nil => rfl
+  | cons x r ih =>
+    obtain ⟨a, b⟩ := x
+    by_cases hk : k = a
+    · subst hk; rw [lookup_cons_eq] at h; cases h
+    · rw [List.cons_append, lookup_cons_ne _ _ _ _ hk]
+      rw [lookup_cons_ne _ _ _ _ hk] at h
+      exact ih h
+
+/-- names bound for fields from index `i` on are none of the names of earlier indices -/
+theorem closureList_lookup_lt (n : S) : ∀ (fs : List (FieldInfo × S)) (i : Nat),
+    (∀ j, i ≤ j → n ≠ defaultName j ∧ n ≠ skipIfName j) → (closureList i fs).lookup n = none
+  | [], _, _ => rfl
+  | (fi, _) :: r, i, h => by
+    have hi := h i (Nat.le_refl i)
+    have hr := closureList_lookup_lt n r (i + 1) (fun j hj => h j (by omega))
+    simp only [closureList]
+    have e1 : ((match fi.dflt with | some d => [(defaultName i, CV.dflt d)] | none => []) : List (S × CV)).lookup n = none := by
+      cases fi.dflt with
+      | none => rfl
+      | some d => exact lookup_single_ne _ _ _ hi.1
+    have e2 : ((match fi.skipIf with | some c => [(skipIfName i, CV.lit c.val)] | none => []) : List (S × CV)).lookup n = none := by
+      cases fi.skipIf with
+      | none => rfl
+      | some c => exact lookup_single_ne _ _ _ hi.2
+    rw [List.append_assoc, lookup_append_of_none _ _ _ e1, lookup_append_of_none _ _ _ e2]
+    exact hr
+
+theorem closureList_default : ∀ (fs : List (FieldInfo × S)) (i0 i : Nat) (fi : FieldInfo) (k : S) (d : Dflt),
+    fs[i]? = some (fi, k) → fi.dflt = some d → (closureList i0 fs).lookup (defaultName (i0 + i)) = some (.dflt d)
+  | [], _, _, _, _, _, h, _ => by simp at h
+  | (f0, k0) :: r, i0, i, fi, k, d, h, hd => by
+    cases i with
+    | zero =>
+      simp only [List.getElem?_cons_zero, Option.some.injEq, Prod.mk.injEq] at h
+      obtain ⟨rfl, rfl⟩ := h
+      simp only [closureList, hd, Nat.add_zero, List.cons_append, List.nil_append]
+      exact lookup_cons_eq _ _ _
+    | succ i =>
+      simp only [List.getElem?_cons_succ] at h
+      have ih := closureList_default r (i0 + 1) i fi k d h hd
+      rw [show i0 + 1 + i = i0 + (i + 1) by omega] at ih
+      simp only [closureList]
+      have hne1 : defaultName (i0 + (i + 1)) ≠ defaultName i0 := fun e => by have := defaultName_injective _ _ e; omega
+      have e1 : ((match f0.dflt with | some d => [(defaultName i0, CV.dflt d)] | none => []) : List (S × CV)).lookup (defaultName (i0 + (i + 1))) = none := by
+        cases f0.dflt with
+        | none => rfl
+        | some d => exact lookup_single_ne _ _ _ hne1
+      have e2 : ((match f0.skipIf with | some c => [(skipIfName i0, CV.lit c.val)] | none => []) : List (S × CV)).lookup (defaultName (i0 + (i + 1))) = none := by
+        cases f0.skipIf with
+        | none => rfl
+        | some c => exact lookup_single_ne _ _ _ (defaultName_ne_skipIfName _ _)
+      rw [List.append_assoc, lookup_append_of_none _ _ _ e1, lookup_append_of_none _ _ _ e2]
+      exact ih
+
+theorem closureList_skipIf : ∀ (fs : List (FieldInfo × S)) (i0 i : Nat) (fi : FieldInfo) (k : S) (c : Cond),
+    fs[i]? = some (fi, k) → fi.skipIf = some c → (closureList i0 fs).lookup (skipIfName (i0 + i)) = some (.lit c.val)
+  | [], _, _, _, _, _, h, _ => by simp at h
+  | (f0, k0) :: r, i0, i, fi, k, c, h, hc => by
+    cases i with
+    | zero =>
+      simp only [List.getElem?_cons_zero, Option.some.injEq, Prod.mk.injEq] at h
+      obtain ⟨rfl, rfl⟩ := h
+      have hne : skipIfName i0 ≠ defaultName i0 := fun e => defaultName_ne_skipIfName _ _ e.symm
+      have e1 : ((match f0.dflt with | some d => [(defaultName i0, CV.dflt d)] | none => []) : List (S × CV)).lookup (skipIfName (i0 + 0)) = none := by
+        cases f0.dflt with
+        | none => rfl
+        | some d => exact lookup_single_ne _ _ _ hne
+      simp only [closureList]
+      rw [List.append_assoc, lookup_append_of_none _ _ _ e1]
+      simp only [hc, Nat.add_zero, List.cons_append, List.nil_append]
+      exact lookup_cons_eq _ _ _
+    | succ i =>
+      simp only [List.getElem?_cons_succ] at h
+      have ih := closureList_skipIf r (i0 + 1) i fi k c h hc
+      rw [show i0 + 1 + i = i0 + (i + 1) by omega] at ih
+      simp only [closureList]
+      have hne1 : skipIfName (i0 + (i + 1)) ≠ skipIfName i0 := fun e => by have := skipIfName_injective _ _ e; omega
+      have hne2 : skipIfName (i0 + (i + 1)) ≠ defaultName i0 := fun e => defaultName_ne_skipIfName _ _ e.symm
+      have e1 : ((match f0.dflt with | some d => [(defaultName i0, CV.dflt d)] | none => []) : List (S × CV)).lookup (skipIfName (i0 + (i + 1))) = none := by
+        cases f0.dflt with
+        | none => rfl
+        | some d => exact lookup_single_ne _ _ _ hne2
+      have e2 : ((match f0.skipIf with | some c => [(skipIfName i0, CV.lit c.val)] | none => []) : List (S × CV)).lookup (skipIfName (i0 + (i + 1))) = none := by
+        cases f0.skipIf with
+        | none => rfl
+        | some c => exact lookup_single_ne _ _ _ hne1
+      rw [List.append_assoc, lookup_append_of_none _ _ _ e1, lookup_append_of_none _ _ _ e2]
+      exact ih
+
+theorem ne_of_getElem? (X Y : S) (n : Nat) (h : X[n]? ≠ Y[n]?) : X ≠ Y := fun e => h (by rw [e])
+
+theorem skipValue_1 : skipValue[1]? = some 's' := by decide
+theorem skipValue_6 : skipValue[6]? = some 'v' := by decide
+theorem skipDefaultsValue_1 : skipDefaultsValue[1]? = some 's' := by decide
+theorem skipDefaultsValue_6 : skipDefaultsValue[6]? = some 'd' := by decide
+
+theorem defaultName_ne_meta (i : Nat) : defaultName i ≠ skipValue ∧ defaultName i ≠ skipDefaultsValue := by
+  have h : (defaultName i)[1]? = some 'd' := by
+    have : defaultName i = '_' :: 'd' :: 'e' :: 'f' :: 'a' :: 'u' :: 'l' :: 't' :: '_' :: dec i := by unfold defaultName; rfl
+    rw [this]; rfl
+  exact ⟨ne_of_getElem? _ _ 1 (by rw [h, skipValue_1]; decide), ne_of_getElem? _ _ 1 (by rw [h, skipDefaultsValue_1]; decide)⟩
+
+theorem skipIfName_ne_meta (i : Nat) : skipIfName i ≠ skipValue ∧ skipIfName i ≠ skipDefaultsValue := by
+  have h : (skipIfName i)[6]? = some 'i' := by
+    have : skipIfName i = '_' :: 's' :: 'k' :: 'i' :: 'p' :: '_' :: 'i' :: 'f' :: '_' :: dec i := by unfold skipIfName; rfl
+    rw [this]; rfl
+  exact ⟨ne_of_getElem? _ _ 6 (by rw [h, skipValue_6]; decide), ne_of_getElem? _ _ 6 (by rw [h, skipDefaultsValue_6]; decide)⟩
+
+theorem closureMeta_none (eff : MetaCfg) (n : S) (h1 : n ≠ skipValue) (h2 : n ≠ skipDefaultsValue) :
+    (closureMeta eff).lookup n = none := by
+  unfold closureMeta
+  cases eff.skipIf <;> cases eff.skipDefaultsIf
+  · rfl
+  · exact lookup_single_ne _ _ _ h2
+  · exact lookup_single_ne _ _ _ h1
+  · simp only [List.cons_append, List.nil_append]
+    rw [lookup_cons_ne _ _ _ _ h1]; exact lookup_single_ne _ _ _ h2
+
+/-- **the hypotheses of the semantic theorems are met by the environment the generator itself sets up** -/
+theorem world_envOf (p : Char → Bool) (eff : MetaCfg) (args : DumpArgs) (fks : List (FieldInfo × S)) (vals : S → PyVal) :
+    World p eff args fks vals (envOf eff args fks vals) where
+  field := fun _ => rfl
+  exclude := rfl
+  skipDefaults := rfl
+  dflt := by
+    intro i fi k d hi hd
+    obtain ⟨h1, h2⟩ := defaultName_ne_meta i
+    show (closureMeta eff ++ closureList 0 fks).lookup (defaultName i) = _
+    rw [lookup_append_of_none _ _ _ (closureMeta_none eff _ h1 h2)]
+    simpa using closureList_default fks 0 i fi k d hi hd
+  skipIf := by
+    intro i fi k c hi hc _
+    obtain ⟨h1, h2⟩ := skipIfName_ne_meta i
+    show (closureMeta eff ++ closureList 0 fks).lookup (skipIfName i) = _
+    rw [lookup_append_of_none _ _ _ (closureMeta_none eff _ h1 h2)]
+    simpa using closureList_skipIf fks 0 i fi k c hi hc
+  skipValue := by
+    intro c hc _
+    show (closureMeta eff ++ closureList 0 fks).lookup skipValue = _
+    simp only [closureMeta, hc, List.cons_append, List.nil_append]
+    exact lookup_cons_eq _ _ _
+  skipDefaultsValue := by
+    intro c hc _
+    show (closureMeta eff ++ closureList 0 fks).lookup skipDefaultsValue = _
+    have hne : skipDefaultsValue ≠ skipValue := by decide
+    cases hs : eff.skipIf with
+    | none =>
+      simp only [closureMeta, hc, hs, List.cons_append, List.nil_append]
+      exact lookup_cons_eq _ _ _
+    | some c' =>
+      simp only [closureMeta, hc, hs, List.cons_append, List.nil_append]
+      rw [lookup_cons_ne _ _ _ _ hne]; exact lookup_cons_eq _ _ _
+
 end DW.GenDump
